@@ -206,7 +206,9 @@ def regen_model():
             txt = open(src).read()
             write_if_changed(dst, txt)
             status[mod] = {"status": "regenerated", "differs_from_golden": gtxt is not None and txt != gtxt,
-                           "golden_missing": gtxt is None,
+                           "golden_missing": gtxt is None, "translator": info.get("status", ""),
+                           "not_translated": [i["name"] + ": " + i["status"][:160] for i in info.get("items", [])
+                                              if i["status"].startswith("failed")],
                            "items": [{"name": i["name"], "lines": i["lines"], "status": i["status"]}
                                      for i in info.get("items", [])]}
         elif gtxt is not None:
@@ -268,6 +270,31 @@ def scan_forbidden():
                     continue
                 bad.append("%s:%d: %s" % (os.path.relpath(f, VERIF), ln, line.strip()[:100]))
     return bad
+
+
+def gen_deps(prop):
+    """The regenerated modules (Gen/X) that Properties/<prop>.vo depends on, from coq_makefile's dependency file."""
+    deps = {}
+    try:
+        for line in open(os.path.join(COQ, ".Makefile.d")):
+            if ":" not in line:
+                continue
+            lhs, rhs = line.split(":", 1)
+            ds = [d for d in rhs.split() if d.endswith(".vo")]
+            for t in lhs.split():
+                if t.endswith(".vo"):
+                    deps[t] = ds
+    except OSError:
+        return None
+    seen = set()
+    todo = ["theories/Properties/%s.vo" % prop]
+    while todo:
+        t = todo.pop()
+        for d in deps.get(t, []):
+            if d not in seen:
+                seen.add(d)
+                todo.append(d)
+    return sorted(x[4:-3] for x in seen if x.startswith("Gen/"))
 
 
 AXIOM_ALLOW = set()  # the allow-list of axioms is empty: every theorem must be closed
